@@ -335,6 +335,13 @@ func TestHarness(t *testing.T) {
 			if has("closurestress") && i == job.Params["offset"] {
 				emit(guard("closurestress", "json-raw", seed, func() SysRecord { return ClosureStress(seed, job.Params["workers"], job.Params["perworker"]) }))
 			}
+			if has("racestress") && i == job.Params["offset"] {
+				rounds := job.Params["rounds"]
+				if rounds == 0 {
+					rounds = 150
+				}
+				emit(guard("racestress", "json-raw", seed, func() SysRecord { return FamRaceStress(seed, rounds) }))
+			}
 			if has("earlycancel") {
 				emit(guard("earlycancel", "json-raw", seed, func() SysRecord { return FamEarlyCancel(seed, i) }))
 				if k := i - job.Params["offset"]; k < 2 {
